@@ -131,4 +131,42 @@ theorem drain_ignore {α : Type} (r : Option α) (evs : List (Ev α)) (fuel : Na
       | zero => simp [drain, hn, h1]
       | succ m => simp [drain, hn, h1, ignoreNext]
 
+/-! ## the lock wrapper `_ThreadSafeIterator` -/
+
+/-- the wrapper is transparent: the results of successive `__next__` calls are those of the wrapped
+iterator, whatever its kind -/
+theorem drain_ts {α σ : Type} (next : σ → Step α σ) (fuel : Nat) (s : σ) (l : Bool) :
+    drain (tsNext next) fuel { inner := s, locked := l } = drain next fuel s := by
+  induction fuel generalizing s l with
+  | zero => simp [drain]
+  | succ n ih =>
+    cases h : next s with
+    | yield a s' => simp [drain, tsNext, h, ih]
+    | stop => simp [drain, tsNext, h]
+    | raise e s' => simp [drain, tsNext, h, ih]
+
+/-- whichever workers call in whichever order: the events handed out, in call order, are the
+events of the wrapped iterator -/
+theorem tsServe_events {α σ : Type} (next : σ → Step α σ) (sched : List Nat) (s : σ) (l : Bool) :
+    (tsServe next sched { inner := s, locked := l }).map (·.2) = drain next sched.length s := by
+  induction sched generalizing s l with
+  | nil => simp [tsServe, drain]
+  | cons w sched ih =>
+    cases h : next s with
+    | yield a s' => simp [tsServe, drain, tsNext, h, ih]
+    | stop =>
+      -- the exhausted iterator stays exhausted: every later call gets `StopIteration` too
+      have hstop : ∀ (sc : List Nat), tsServe next sc { inner := s, locked := l } = ([] : List (Nat × Ev α)) := by
+        intro sc
+        induction sc with
+        | nil => simp [tsServe]
+        | cons w' sc ih' => simp [tsServe, tsNext, h, ih']
+      simp [tsServe, drain, tsNext, h, hstop]
+    | raise e s' => simp [tsServe, drain, tsNext, h, ih]
+
+theorem tsFreeAfter_true {α σ : Type} (next : σ → Step α σ) (s : σ) :
+    tsFreeAfter next { inner := s, locked := false } = true := by
+  unfold tsFreeAfter tsNext
+  cases next s <;> simp
+
 end MlModel.Iter
